@@ -12,6 +12,7 @@ type GenOptions struct {
 	MaxEntries int
 	Affected   bool // allow messages.affected* results (marker entries, HandleAffected actions)
 	Foreign    bool // allow differences that forward updates of other sequences, and unknown channels
+	Faults     bool // allow transient failures of difference requests
 }
 
 // Gen builds a random scenario: a server log mixing new messages, pts-bearing non-message
@@ -145,6 +146,13 @@ func Gen(r *hc.RNG, o GenOptions) (Scenario, map[int]bool) {
 		}
 		if o.Wait && r.Chance(3) {
 			s.Actions = append(s.Actions, Action{Op: "W"})
+		}
+		if o.Faults && r.Chance(6) { // a transient RPC failure of the next difference request
+			c := int64(0)
+			if len(chans) > 0 && r.Chance(60) {
+				c = hc.Pick(r, chans...)
+			}
+			s.Actions = append(s.Actions, Action{Op: "ERR", C: c})
 		}
 		if r.Chance(10) { // the gap timers fire (through the hook, no real waiting)
 			s.Actions = append(s.Actions, Action{Op: "F"})
